@@ -313,6 +313,31 @@ let explore par_list maxjob maxsid =
       if not (List.exists (fun (t, _) -> t >= 0) (Hashtbl.find succ i)) then incr dead
     end
   done;
+
+  (* the termination measure of the stop phase (coq/Workers/WorkersMeasure.v, extracted): every
+     state-changing thread transition inside the stop phase strictly decreases it, except the
+     engine thread's idle wake-up cycle in the ack loop (unchanged); UCI transitions leave it
+     unchanged (theorem C10_stop_terminates; re-checked here on every explored edge) *)
+  let muv = Array.make ns (-1) in
+  let mu_of i = if muv.(i) < 0 then muv.(i) <- int_of_nat (mu nn parent (fst !states.(i))); muv.(i) in
+  let mbad = ref 0 and medges = ref 0 in
+  for i = 0 to ns - 1 do
+    if in_stop !states.(i) then
+      List.iter (fun (t, j) -> if in_stop !states.(j) then begin
+        incr medges;
+        let a = mu_of i and b = mu_of j in
+        let si = fst !states.(i) and sj = fst !states.(j) in
+        let ackloop (s : state) = (match (s.th O).pc with PPoll KAck | PWait KAck -> true | _ -> false) in
+        let neutral = (t < 0) || (t = 0 && ackloop si && ackloop sj && si.qu O = sj.qu O) in
+        if not (if neutral then b = a else b < a) then begin
+          incr mbad;
+          if !mbad <= 3 then begin
+            Printf.printf "MEASURE edge thread=%d mu %d -> %d\n" t a b;
+            for v = 0 to n do Printf.printf "   %s\n      -> %s\n" (thread_str si v) (thread_str sj v) done
+          end
+        end
+      end) (Hashtbl.find succ i)
+  done;
   (* SCCs of the stop-phase subgraph (iterative Tarjan) *)
   let index = Array.make ns (-1) and low = Array.make ns 0 and onst = Array.make ns false in
   let comp = Array.make ns (-1) in
@@ -367,10 +392,10 @@ let explore par_list maxjob maxsid =
       if !starved then incr unfair_ok else incr fair_cycles
     end
   done;
-  Printf.printf "%s explore tree=[%s] maxjob=%d maxsearch=%d states=%d stop_states=%d deadlocks=%d cyclic_sccs=%d fair_cycles=%d\n"
-    (if !dead = 0 && !fair_cycles = 0 then "OK" else "BAD")
-    (String.concat "," (List.map string_of_int par_list)) maxjob maxsid ns !nstop !dead (!unfair_ok + !fair_cycles) !fair_cycles;
-  if !dead > 0 || !fair_cycles > 0 then exit 1
+  Printf.printf "%s explore tree=[%s] maxjob=%d maxsearch=%d states=%d stop_states=%d deadlocks=%d cyclic_sccs=%d fair_cycles=%d measure_edges=%d measure_bad=%d\n"
+    (if !dead = 0 && !fair_cycles = 0 && !mbad = 0 then "OK" else "BAD")
+    (String.concat "," (List.map string_of_int par_list)) maxjob maxsid ns !nstop !dead (!unfair_ok + !fair_cycles) !fair_cycles !medges !mbad;
+  if !dead > 0 || !fair_cycles > 0 || !mbad > 0 then exit 1
 
 let () =
   match Array.to_list Sys.argv with
